@@ -34,10 +34,12 @@ def run(tier):
         vlib.require_tlc_ok(r, "Ipa")
         mc_stats.append((cfg, r["distinct"], r["generated"]))
     log(f"[C20] Ipa model: {mc_stats}")
-    archs = ["poseidon", "poseidon_sha256", "poseidon_secp256k1", "poseidon_jubjub"]
+    archs = ["poseidon", "poseidon_sha256", "poseidon_secp256k1", "poseidon_jubjub", "poseidon_jubjub_p3", "agg_test"]
     scen = []
     if tier == "quick":
-        plan = [("poseidon", 1), ("poseidon_sha256", 2), ("poseidon_secp256k1", 2), ("poseidon_jubjub", 3)]
+        # boundary class: the IPA vector (nb x proof bases + fixed bases) is exactly a power of two, so nothing is padded:
+        # ("poseidon_jubjub_p3", 1): 31 + 33 = 64; ("agg_test", 2): 2 x 40 + 48 = 128 (the driver logs the lengths)
+        plan = [("poseidon", 1), ("poseidon_jubjub_p3", 1), ("agg_test", 2), ("poseidon_sha256", 2), ("poseidon_secp256k1", 3), ("poseidon_jubjub", 3)]
         stride = 6
     else:
         plan = [(a, nb) for a in archs for nb in (1, 2, 3)]
@@ -106,7 +108,7 @@ def run(tier):
     rep.coverage.update({
         "states": sum(s[1] for s in mc_stats), "transitions": sum(s[2] for s in mc_stats),
         "traces_validated_against_impl": good,
-        "aggregations": [{"arch": a["arch"], "nb": a["nb"], "inner": a["inner"], "verdict": a["verdict"], "proof_len": a.get("proof_len"),
+        "aggregations": [{"arch": a["arch"], "nb": a["nb"], "inner": a["inner"], "verdict": a["verdict"], "proof_len": a.get("proof_len"), "ipa": a.get("ipa"),
                           "elements": sum(1 for e in a["verifier"] if e["op"] == "read")} for a in aggs],
         "corruptions": len(tam), "corruptions_accepted": sum(1 for t in tam if t["verdict"] == "ok" and not (t.get("how") == "append_byte" and t.get("trailing"))),
         "instance_edits": sum(1 for r in allrows if r["ev"] == "AggInstance"),
